@@ -4,6 +4,7 @@ use std::alloc::Allocator;
 use std::ops::{Index, IndexMut};
 use std::slice::SliceIndex;
 use vstd::slice::SliceIndexSpec;
+use vstd::std_specs::cmp::PartialOrdSpec;
 
 pub assume_specification<T: Clone>[ <[T]>::fill ](s: &mut [T], value: T)
     ensures
@@ -26,3 +27,47 @@ pub assume_specification<T>[ <[T]>::rotate_right ](s: &mut [T], k: usize)
 #[verifier::external_body]
 #[verifier::reject_recursive_types(T)]
 pub struct ExRgb<T>(rgb::Rgb<T>);
+
+/// `char` is totally ordered by its scalar value (core's `impl PartialOrd for char`); vstd has
+/// no `PartialOrdSpecImpl for char`, and the orphan rule forbids writing one here.
+#[verifier::external_body]
+pub proof fn axiom_char_ord()
+    ensures
+        <char as vstd::std_specs::cmp::PartialOrdSpec<char>>::obeys_partial_cmp_spec(),
+        forall|a: char, b: char| #[trigger] a.partial_cmp_spec(&b) == Some(
+            if (a as u32) < (b as u32) { core::cmp::Ordering::Less }
+            else if a == b { core::cmp::Ordering::Equal } else { core::cmp::Ordering::Greater }),
+{}
+
+pub assume_specification[ <crate::line::Line as Clone>::clone ](l: &crate::line::Line) -> (r: crate::line::Line)
+    ensures
+        r.cells@ == l.cells@,
+        r.wrapped == l.wrapped;
+
+// `vec[range]` on the left of a method call: vstd specifies `<[T] as IndexMut<I>>::index_mut`
+// but not the `Vec` impl, which simply forwards to the slice impl.
+pub assume_specification<T, I: SliceIndex<[T]>, A: Allocator>[ <Vec<T, A> as IndexMut<I>>::index_mut ](
+    v: &mut Vec<T, A>,
+    index: I,
+) -> (output: &mut <Vec<T, A> as Index<I>>::Output)
+    ensures
+        exists|os: &[T], fs: &[T]| os@ == old(v)@ && fs@ == final(v)@
+            && #[trigger] index.index_mut_postcondition(os, fs, &*output, &*final(output));
+
+/// ASSUMPTION (allocation): sizes and counts handed to the library are below 2^59.  A `Cell` is
+/// at least 16 bytes, so a row of more cells, a screen of more rows or a scrollback of more
+/// lines cannot be allocated (Vec would abort with capacity overflow / OOM first).
+pub spec const MEM_MAX: usize = 0x0800_0000_0000_0000;
+
+/// ASSUMPTION (allocation): the lines of a buffer are distinct heap allocations of `cols`
+/// cells each, so their total cell count is bounded by the address space.
+#[verifier::external_body]
+pub proof fn axiom_lines_bound(b: &crate::buffer::Buffer)
+    requires
+        b.wf_geom(),
+    ensures
+        b.len() * b.cols <= MEM_MAX,
+        b.len() <= MEM_MAX,
+{}
+
+global size_of usize == 8;
